@@ -6,7 +6,7 @@
    (C03_select_is_solutions) is listed as OPEN in design-notes/C03.md and is only covered by the correspondence run. *)
 From Coq Require Import List ZArith NArith Bool.
 Import ListNotations.
-From BWPlanner Require Import Terms Rows Clause Store Fetch Plan PatternSpec Current Corr Witnesses RowsProofs FetchProofs PlanProofs.
+From BWPlanner Require Import Terms Rows Clause Store Fetch Plan PatternSpec Current Corr Witnesses RowsProofs FetchProofs PlanProofs SpecSound.
 
 (* ---- layer 1 (tripleToRow + shouldIgnoreTriple = the declarative reading of one clause on one triple).
    xval opt x t: the part of t that extractor x denotes (NULL inside an OPTIONAL clause when it does not apply).
@@ -66,6 +66,15 @@ Theorem C03_row_total_partial :
   forall e c t, fixoid e = true -> binders_checked (binders c) t -> exists o, row_of e c t = Ok o.
 Proof. exact row_of_total. Qed.
 Print Assumptions C03_row_total_partial.
+
+(* ---- the oracle: the computable reference used by the check (nested-loop join, PatternSpec.spec_solutions) only returns
+   solutions in the declarative sense - every clause is matched by a triple of a listed graph under the row's assignment,
+   constants, kinds, clause and global time bounds included (patterns without OPTIONAL) *)
+Theorem C03_reference_sound :
+  forall glo gs cs mu, forallb (fun c => negb (c_opt c)) cs = true ->
+    In mu (spec_solutions glo gs cs) -> is_solution cs glo gs mu.
+Proof. exact spec_solutions_sound. Qed.
+Print Assumptions C03_reference_sound.
 
 (* the domains are inhabited: the second clause of the join witness has no object ID alias, and on it the fetch really
    produces a row *)
